@@ -439,6 +439,53 @@ def postcondition_probes(chk, rng):
                 chk.violation("distribution:%s" % name, "frequencies %s deviate from p=%s beyond the fixed bound" % (ff, p), dict(p=p))
 
 
+def tomography_distributions(chk):
+    """All four tomography types' data-generation entry points: the data of schedule j follow the Born distribution of
+    schedule j (fixed, astronomically unlikely bound), outcomes of probability zero never occur - for every schedule index,
+    through the single-schedule, the all-schedules and the sequence entry points."""
+    from quara.protocol.qtomography.standard.standard_qst import StandardQst
+    from quara.protocol.qtomography.standard.standard_povmt import StandardPovmt
+    from quara.protocol.qtomography.standard.standard_qpt import StandardQpt
+    from quara.protocol.qtomography.standard.standard_qmpt import StandardQmpt
+    pool = qobjs.pool_1qubit()
+    c = pool["csys"]
+    cfgs = [("qst", StandardQst(pool["tester_povms"], seed_data=5), qobjs.gen("state", "z0", c)),
+            ("povmt", StandardPovmt(pool["tester_states"], 2, seed_data=6), qobjs.gen("povm", "z", c)),
+            ("qpt", StandardQpt(pool["tester_states"], pool["tester_povms"], seed_data=7), qobjs.gen("gate", "x90", c)),
+            ("qmpt", StandardQmpt(pool["tester_states"], pool["tester_povms"], 2, seed_data=8), qobjs.gen("mprocess", "z-type1", c))]
+    N = 40000
+    for name, qt, true in cfgs:
+        want = [np.asarray(p, dtype=float) for p in qt.calc_prob_dists(true)]
+        if len({tuple(np.round(w, 6)) for w in want}) < 2:
+            raise core.MachineryError("tomography_distributions: all schedules of %s have the same distribution (vacuous)" % name)
+
+        def judge(tag, j, f):
+            f = np.asarray(f, dtype=float)
+            bound = 6 * np.sqrt(want[j] * (1 - want[j]) / N) + 2e-3
+            chk.count(1)
+            if f.shape != want[j].shape or (np.abs(f - want[j]) > bound).any() or (f[want[j] < 1e-12] > 0).any():
+                chk.violation("distribution:tomography:%s:%s" % (name, tag), "%s schedule %d: frequencies %s, Born distribution of that schedule %s" % (tag, j, np.round(f, 4), np.round(want[j], 4)),
+                              dict(tomography=name, entry=tag, schedule=j))
+                return False
+            return True
+        try:
+            for seed in (3, np.random.Generator(np.random.MT19937(4))):
+                for j in range(len(want)):
+                    e = qt.generate_empi_dist(j, true, N, seed)
+                    if not judge("generate_empi_dist", j, e[1]):
+                        break
+            es = qt.generate_empi_dists(true, N, 5)
+            for j in range(len(want)):
+                if not judge("generate_empi_dists", j, es[j][1]):
+                    break
+            seq = qt.generate_empi_dists_sequence(true, [N // 4, N], 6)
+            for j in range(len(want)):
+                if not judge("generate_empi_dists_sequence", j, seq[-1][j][1]):
+                    break
+        except Exception as e:
+            chk.violation("distribution:tomography:%s:exception" % name, "%r" % e, dict(tomography=name))
+
+
 def run(chk):
     rng = random.Random(chk.seed)
     t = chk.tier
@@ -471,6 +518,7 @@ def run(chk):
     chk.sample([e for e in r.emitted if e["kind"] == "p"][5])
     # (3)
     postcondition_probes(chk, rng)
+    tomography_distributions(chk)
     chk.assumptions += [
         "outputs are compared through hashes; different stream positions are expected to give different data (draw sizes chosen so that accidental equality is negligible)",
         "statistical agreement is a fixed-bound sanity check outside the TLA+ argument",
